@@ -16,6 +16,7 @@ import (
 
 	"github.com/charmbracelet/log"
 	"github.com/flamego/flamego"
+	"github.com/flamego/flamego/inject"
 
 	"verif/sim/internal/sched"
 )
@@ -40,17 +41,20 @@ const (
 	ShCtxRender        // func(Context, flamego.Render)  (needs Renderer earlier in the chain)
 	ShMissing          // func(Context, Missing): failed dependency resolution
 	ShCtxSvc           // func(Context, *AppSvc)
+	ShInjector         // func(inject.Injector): reaches the Context through an interface it implements
+	ShUserFast         // a user-defined inject.FastInvoker type
+	ShCtxPtrStr        // func(Context) *string
 	shMax
 )
 
 // ShapeNames for reports.
 var ShapeNames = []string{"ctx", "http", "ctx+tok", "ctx+req+tok", "ctx->string", "ctx->bytes", "ctx->error", "ctx->(int,string)",
-	"ctx->(int,error)", "ctx->(string,error)", "teapot", "logger-invoker", "rw+req+tok", "ctx+render", "ctx+MISSING", "ctx+svc"}
+	"ctx->(int,error)", "ctx->(string,error)", "teapot", "logger-invoker", "rw+req+tok", "ctx+render", "ctx+MISSING", "ctx+svc", "injector", "user-fast-invoker", "ctx->*string"}
 
 // ShapeHasOut reports whether the shape returns values that flamego renders.
 func ShapeHasOut(sh int) bool {
 	switch sh {
-	case ShCtxStr, ShCtxBytes, ShCtxErr, ShCtxIntStr, ShCtxIntErr, ShCtxStrErr, ShTeapot:
+	case ShCtxStr, ShCtxBytes, ShCtxErr, ShCtxIntStr, ShCtxIntErr, ShCtxStrErr, ShTeapot, ShCtxPtrStr:
 		return true
 	}
 	return false
@@ -585,6 +589,9 @@ func (h *SimH) echo(q *Req, c flamego.Context, r *http.Request) string {
 	for _, k := range keys {
 		sb.WriteString(" p." + k + "=" + c.Param(k))
 	}
+	if len(keys) > 0 {
+		sb.WriteString(" pint=" + itoa(c.ParamInt(keys[0])))
+	}
 	if name := h.w.routeName(h.Chain); name != "" {
 		var pairs []string
 		for _, k := range keys {
@@ -615,6 +622,15 @@ func retErr(q *Req, pos int, k int) error {
 		return nil
 	}
 	return errors.New("err-" + q.Name + "-" + itoa(pos))
+}
+
+// userFast is a FastInvoker type defined outside flamego.
+type userFast func(c flamego.Context)
+
+// Invoke implements inject.FastInvoker.
+func (f userFast) Invoke(args []interface{}) ([]reflect.Value, error) {
+	f(args[0].(flamego.Context))
+	return nil, nil
 }
 
 // handler returns the Go function registered with flamego for h.
@@ -676,6 +692,22 @@ func (h *SimH) handler() flamego.Handler {
 		return func(c flamego.Context, _ Missing) { h.run(c, nil, nil, "") }
 	case ShCtxSvc:
 		return func(c flamego.Context, s *AppSvc) { h.run(c, nil, nil, "svc:"+s.Name) }
+	case ShInjector:
+		return func(i inject.Injector) {
+			c, _ := i.(flamego.Context)
+			h.run(c, nil, nil, "")
+		}
+	case ShUserFast:
+		return userFast(func(c flamego.Context) { h.run(c, nil, nil, "") })
+	case ShCtxPtrStr:
+		return func(c flamego.Context) *string {
+			rt, q := h.run(c, nil, nil, "")
+			if rt.Kind == 0 {
+				return nil
+			}
+			s := retString(q, h.Pos, 1)
+			return &s
+		}
 	}
 	panic("unknown shape")
 }
